@@ -118,6 +118,10 @@ func (p *exeParser) readSelectionSet() (sels []Selection, err error) {
 		return
 	}
 	_, _ = p.readByte() // re-read {
+	if err = p.descend(); err != nil {
+		return
+	}
+	defer p.ascend()
 FOR:
 	for {
 		if err != nil {
